@@ -3,6 +3,7 @@ import Dalek.Gen.Norm.Avx2Field
 /-! `square_and_negate_D` of the AVX2 backend, for ALL integer lane values. -/
 set_option maxRecDepth 100000
 set_option maxHeartbeats 4000000
+set_option linter.unusedSimpArgs false
 namespace Dalek.Proofs.Avx2Field
 open Dalek Dalek.Gen.Norm.Avx2Field Dalek.Proofs.Field26
 
